@@ -74,6 +74,12 @@ def rfc_first_range(header, length):
 class C17(Check):
     pid = 'C17'
     props_mod = 'OmbottModel.Props.C17'
+    tables = ['tables']
+    design_ref = '6/C17'
+    level_text = ('Lean theorems over the model of get_first_range/_file_iter_range/static_file for all headers, '
+                  'lengths, schedules and buffers (bounds, 206 self-consistency, RFC 7233 clipping of the first '
+                  'range-spec, 304/HEAD); model tied to the code by a differential run on real files every time.')
+    level_note_extra = 'date parsing, stat and file stability are assumed'
     anchors = ['ombott/static_stream.py', 'ombott/common_helpers.py']
     rule = ('headers from the RFC 7233 grammar and near misses x file lengths 0..40 and around a patched small '
             'streaming buffer x read schedules x If-Modified-Since before/equal/after mtime x GET/HEAD on real '
